@@ -212,7 +212,7 @@ impl Property for C10 {
         "C10"
     }
     fn rule(&self) -> &'static str {
-        "profile `chaos`: everything the other profiles avoid - unguarded / and %, random with bounds {-1,0,1,2,...}, signExt, variables bound only on paths that do not execute (while(0), loops with bound <= 0), counter rebinding incl. to i64::MAX, 64-bit boundary arithmetic and shift counts, widths 1..64, wild defaults, shared input/expected columns, X and C anywhere, virtual signals using random, drivers answering Z/X and returning errors at any call, seeds {0,1,MAX,random}; kept only if the crate accepts it at load time. Run through try_iter, next() to the first error item or the end (+1 call), vars() after each row, and try_iter_static. Oracle: no panic anywhere; where the reference interpreter (replaying the crate's own draw log) marks a hazard - zero divisor, unresolvable name, Z/X read, signExt - that next() returns an error item (random bound < 2: error item or value). Nothing is asserted about values. Non-trivial: a hazardous evaluation was reached, or a width >= 63 is used, or >= 3 rows ran; distinct by source + signals + driver + seed. Thorough adds libFuzzer target run_structured on the same decoder."
+        "profile `chaos`: everything the other profiles avoid - unguarded / and %, random with bounds {-1,0,1,2,...}, signExt, variables bound only on paths that do not execute (while(0), loops with bound <= 0), counter rebinding incl. to i64::MAX, 64-bit boundary arithmetic and shift counts, widths 1..64, wild defaults, shared input/expected columns, X and C anywhere, virtual signals using random, drivers answering Z/X and returning errors at any call, seeds {0,1,MAX,random}; each case enables a random subset of the hazard sources; kept only if the crate accepts it at load time. Run through try_iter, next() to the first error item or the end (+1 call), vars() after each row, and try_iter_static. Oracle: (1) no panic anywhere; (2) in half of the cases a statement that cannot be evaluated whatever the values are - division / remainder by literal zero, signExt, a variable whose only `let` sits in a while(0) body or in a loop with bound 0 - is planted at a random top-level position, where it is executed unconditionally: a run that reaches the end of iteration must then contain an error item. Nothing is asserted about values. The reference interpreter (replaying the crate's own draw log) only classifies which hazards were reached, for the histogram. Non-trivial: a hazardous evaluation was reached or planted, or a width >= 63 is used, or >= 3 rows ran; distinct by source + signals + driver + seed. Thorough adds libFuzzer target run_structured on the same decoder."
     }
     fn cases(&self, tier: Tier) -> u64 {
         match tier {
